@@ -140,8 +140,23 @@ impl Sched {
     /// waits until actor `a` has arrived somewhere new (its arrival counter exceeds `seen`)
     pub fn wait_arrival(&self, a: Actor, seen: u64, timeout: Duration) -> Arrival {
         let deadline = Instant::now() + timeout;
+        let panics0 = PANICS.load(std::sync::atomic::Ordering::SeqCst);
+        let mut panic_seen_at: Option<Instant> = None;
         let mut g = self.inner.lock().unwrap();
         loop {
+            // a thread panicked while we wait: give the actor a short grace period, then report it
+            // as not coming back instead of sitting out the whole timeout
+            if PANICS.load(std::sync::atomic::Ordering::SeqCst) > panics0 {
+                match panic_seen_at {
+                    None => panic_seen_at = Some(Instant::now()),
+                    Some(t0) if t0.elapsed() > Duration::from_millis(400) => {
+                        if g.actors.get(&a).map_or(true, |s| s.arrivals <= seen) {
+                            return Arrival::Blocked;
+                        }
+                    }
+                    _ => {}
+                }
+            }
             if let Some(s) = g.actors.get(&a) {
                 if s.arrivals > seen {
                     return match s.status.clone() {
@@ -155,7 +170,7 @@ impl Sched {
             if now >= deadline {
                 return Arrival::Blocked;
             }
-            let (g2, _) = self.cv.wait_timeout(g, deadline - now).unwrap();
+            let (g2, _) = self.cv.wait_timeout(g, (deadline - now).min(Duration::from_millis(100))).unwrap();
             g = g2;
         }
     }
@@ -170,6 +185,10 @@ impl Sched {
         seen
     }
 }
+
+/// number of panics seen by the process-wide panic hook, and the last message
+pub static PANICS: std::sync::atomic::AtomicU64 = std::sync::atomic::AtomicU64::new(0);
+pub static LAST_PANIC: std::sync::Mutex<String> = std::sync::Mutex::new(String::new());
 
 impl stretto::verif::Hooks for Sched {
     fn yield_point(&self, name: &'static str) {
